@@ -35,7 +35,8 @@ FlattenedProduct(terms) ==
     IN Go(terms, << >>)
 
 \* FlattenMapper(IdentityMapper): sums and products through the helpers, a common
-\* subexpression whose mapped child is falsy collapses to 0, everything else is rebuilt
+\* subexpression whose mapped child is falsy collapses to 0 (IdentityMapper's own handler),
+\* everything else is rebuilt
 RECURSIVE FlattenImpl(_)
 FlattenImpl(e) ==
     LET ks == [i \in 1..Len(Kids(e)) |-> FlattenImpl(Kids(e)[i])] IN
@@ -43,6 +44,58 @@ FlattenImpl(e) ==
       [] e.t = "Product" -> FlattenedProduct(ks)
       [] e.t = "CSE" -> IF is_zero(ks[1]) THEN KI(0) ELSE WithKids(e, ks)
       [] OTHER -> WithKids(e, ks)
+
+(***************************************************************************)
+(* ConstantFoldingMapperBase.fold and the two folders on top of            *)
+(* IdentityMapper (constant_folder.py).  A child of the folded node is      *)
+(* mapped first; if the MAPPED child is again of the folded class its       *)
+(* children go to the FRONT of the queue (and are mapped once more when     *)
+(* they are popped); a variable-free child is evaluated (pymbolic.evaluate  *)
+(* with no variables) and joins the constants, which are combined in order  *)
+(* with Python's own + / * and put in front of the other operands;          *)
+(* flattened_sum / flattened_product build the result.  An arithmetic error *)
+(* of a variable-free child (1/0) is not caught by the code: "Raise".       *)
+(***************************************************************************)
+NoEnv == [nothing |-> IntV(0)]
+RECURSIVE FoldRec(_, _), FoldGo(_, _, _, _, _)
+FoldGo(queue, consts, noncs, klass, comm) ==
+    IF Len(queue) = 0 THEN
+        LET args == IF Len(consts) = 0 THEN noncs
+                    ELSE LET RECURSIVE Red(_, _)
+                             Red(acc, i) == IF i > Len(consts) THEN acc
+                                            ELSE Red(PyBin(IF klass = "Sum" THEN "+" ELSE "*", acc, consts[i]), i + 1)
+                         IN << K(Red(consts[1], 2)) >> \o noncs
+        IN IF \E i \in 1..Len(args) : args[i].t = "Const" /\ (IsUnrep(args[i].v) \/ IsErr(args[i].v))
+           THEN Raise("unrep")
+           ELSE IF klass = "Sum" THEN FlattenedSum(args) ELSE FlattenedProduct(args)
+    ELSE LET child == FoldRec(Head(queue), comm) rest == Tail(queue) IN
+         IF IsRaise(child) THEN child
+         ELSE IF child.t = klass THEN FoldGo(child.c \o rest, consts, noncs, klass, comm)
+         ELSE IF ~HasVar(child) THEN
+              LET v == Eval(child, NoEnv) IN
+              IF IsUnrep(v) THEN Raise("unrep")
+              ELSE IF IsErr(v) THEN (IF v.e = "ValueError" THEN FoldGo(rest, consts, Append(noncs, child), klass, comm)
+                                     ELSE Raise(v.e))
+              ELSE FoldGo(rest, Append(consts, v), noncs, klass, comm)
+         ELSE FoldGo(rest, consts, Append(noncs, child), klass, comm)
+FoldRec(e, comm) ==
+    IF e.t = "Sum" \/ (comm /\ e.t = "Product") THEN FoldGo(e.c, << >>, << >>, e.t, comm)
+    ELSE LET ks == [i \in 1..Len(Kids(e)) |-> FoldRec(Kids(e)[i], comm)] IN
+         IF \E i \in 1..Len(ks) : IsRaise(ks[i])
+         THEN ks[CHOOSE i \in 1..Len(ks) : IsRaise(ks[i]) /\ \A j \in 1..(i - 1) : ~IsRaise(ks[j])]
+         \* IdentityMapper.map_common_subexpression: a wrapper whose mapped child is zero becomes 0
+         ELSE IF e.t = "CSE" /\ is_zero(ks[1]) THEN KI(0)
+         ELSE WithKids(e, ks)
+FoldImpl(e, comm) == FoldRec(e, comm)
+
+\* the statement's clauses on the transcription's result ("OK", "SKIP" or the failing clause)
+FoldOnModel(e, comm) ==
+    LET out == FoldImpl(e, comm) IN
+    IF IsRaise(out) THEN (IF out.e = "unrep" THEN "SKIP" ELSE "raises-" \o out.e)
+    ELSE LET vp == ValuePreserved(e, out) IN
+         IF vp \notin {"OK", "SKIP"} THEN vp
+         ELSE IF ~AtMostOneConstant(out, IF comm THEN {"Sum", "Product"} ELSE {"Sum"})
+              THEN "several-constants" ELSE "OK"
 
 \* the statement's clauses on the transcription's result
 FlattenOnModel(e) ==
